@@ -126,9 +126,20 @@ void h_opt_monadic(void) { ARB_OI(o); VF_INPUT(OL, r); VF_INPUT(OI, q); ARB_LOG(
     VF_ASSERT(O_WF(q) && view_eq(oi_view(&q), en ? v : (fe ? mk(1, fv) : mk(0, 0))), "or_else returns *this if engaged, f() otherwise"); }
   VF_ASSERT(view_eq(oi_view(&o), v), "monadic operations leave the object unchanged (int)"); VF_REACH(); }
 
-/*@GROUP name=opt_monadic_cat props=C07,C02,C05 kind=F@*/
-void h_opt_monadic_cat(void) { ARB_OI(o); ARB_LOG(lg); VF_INPUT(unsigned char, form); __CPROVER_assume(form <= 3 && O_IDX(o) == 1); view_t v = oi_view(&o); oi_and_then_cat(&o, &lg, form);
-  VF_ASSERT(lg.calls == 1 && lg.arg == v.val && lg.which == (int)form, "[optional.monadic] and_then invokes f with the value category of *this: T& / T const& / T&& / T const&& for the &, const&, &&, const&& overloads"); VF_REACH(); }
+/*@GROUP name=optl props=C07,C02,C05 kind=F@*/
+void h_optl(void) { ARB_OL(a); ARB_OL(b); VF_INPUT(OL, t); VF_INPUT(unsigned char, which); VF_INPUT(long, x); view_t oa = ol_view(&a), ob = ol_view(&b); int c = sp_cmp(oa, ob);
+  REL6(ol, &a, &b, c, "optional<long> relational operators in all four engaged/empty operand forms");
+  VF_ASSERT(ol_carrow(&a) == (oa.idx == 1 ? &O_VAL(a) : (long *)0) && (oa.idx != 1 || ol_deref(&a) == &O_VAL(a)), "optional<long> operator-> / operator*");
+  if (which == 0) { ol_default(&t); VF_ASSERT(O_WF(t) && view_eq(ol_view(&t), mk(0, 0)), "optional<long>()"); }
+  else if (which == 1) { ol_copy_ctor(&t, &b); VF_ASSERT(O_WF(t) && view_eq(ol_view(&t), ob) && view_eq(ol_view(&b), ob), "optional<long> copy construction"); }
+  else if (which == 2) { ol_move_ctor(&t, &b); VF_ASSERT(O_WF(t) && view_eq(ol_view(&t), ob) && ol_view(&b).idx == ob.idx, "optional<long> move construction"); }
+  else if (which == 3) { OL *r = ol_copy_assign(&a, &b); VF_ASSERT(r == &a && O_WF(a) && view_eq(ol_view(&a), ob) && view_eq(ol_view(&b), ob), "optional<long> copy assignment, all four state pairs"); }
+  else if (which == 4) { OL *r = ol_move_assign(&a, &b); VF_ASSERT(r == &a && O_WF(a) && view_eq(ol_view(&a), ob) && ol_view(&b).idx == ob.idx, "optional<long> move assignment, all four state pairs"); }
+  else if (which == 5) { OL *r = ol_assign_nullopt(&a); VF_ASSERT(r == &a && O_WF(a) && view_eq(ol_view(&a), mk(0, 0)), "optional<long> = nullopt"); }
+  else if (which == 6) { OL *r = ol_assign_value(&a, &x); VF_ASSERT(r == &a && O_WF(a) && view_eq(ol_view(&a), mk(1, x)), "optional<long> = value"); }
+  else if (which == 7) { ol_reset(&a); VF_ASSERT(O_WF(a) && view_eq(ol_view(&a), mk(0, 0)), "optional<long>::reset"); }
+  else { ol_swap(&a, &b); VF_ASSERT(O_WF(a) && O_WF(b) && view_eq(ol_view(&a), ob) && view_eq(ol_view(&b), oa), "optional<long>::swap, all four state pairs"); }
+  VF_REACH(); }
 
 /*@GROUP name=opt_rel props=C07,C02,C05 kind=F@*/
 void h_opt_rel(void) { ARB_OI(a); ARB_OI(b); ARB_OL(l); int c = sp_cmp(oi_view(&a), oi_view(&b)), m = sp_cmp(oi_view(&a), ol_view(&l));
@@ -180,13 +191,6 @@ void h_var_assign_value(void) { ARB_VT(a); VF_INPUT(unsigned char, which); VF_IN
   else { long *p = vt_emplace_t_long_from_int(&a, x); e = mk(2, x); VF_ASSERT(p == &V_A2(a), "emplace<long>(int) returns a reference to the new alternative"); }
   VF_ASSERT(r == &a && VT_WF(a) && view_eq(vt_view(&a), e), "v = value / emplace<I> / emplace<T> from every previous index: holds exactly the selected alternative with the (converted) value"); VF_REACH(); }
 
-/*@GROUP name=var_conv_traits props=C07,C02 kind=F@*/
-void h_var_conv_traits(void) { VF_INPUT(unsigned char, t); VF_INPUT_BOOL(assign); __CPROVER_assume(t <= 10);
-  /* 0 int 1 char 2 long 3 short 4 unsigned short 5 bool 6 unsigned 7 long long | 8 double 9 unsigned long 10 float (every alternative would narrow) */
-  VF_KNOWN(C07_variant_conv_narrowing, t == 6 || t == 7);
-  VF_ASSERT(vt_accepts(t, assign) == (t <= 7), "variant<int,char,long>(T&&) / = T&& is available exactly when the std selection F(T_i) (narrowing alternatives excluded) picks an alternative: unsigned and long long select long");
-  VF_REACH(); }
-
 /*@GROUP name=var_swap props=C07,C02,C05 kind=F@*/
 void h_var_swap(void) { ARB_VT(a); ARB_VT(b); view_t oa = vt_view(&a), ob = vt_view(&b); vt_swap_free(&a, &b);
   VF_ASSERT(VT_WF(a) && VT_WF(b) && view_eq(vt_view(&a), ob) && view_eq(vt_view(&b), oa), "swap(variant, variant) exchanges the two views for all nine index pairs"); VF_REACH(); }
@@ -207,27 +211,30 @@ void h_var_rel(void) { ARB_VT(a); ARB_VT(b); int c = sp_cmp(vt_view(&a), vt_view
   REL6(vt, &a, &b, c, "variant ==,!=,<,<=,>,>= for all nine index pairs: by index, then by the value of the common alternative"); VF_REACH(); }
 
 /*@GROUP name=var_visit props=C07,C02,C05 kind=F@*/
-void h_var_visit(void) { ARB_VT(v); ARB_LOG(lg); VF_INPUT(unsigned char, which); view_t o = vt_view(&v);
-  if (which == 0) { long r = vt_visit(&v, &lg); VF_ASSERT(r == (o.idx == 0 ? 3L * o.val + 1L : (o.idx == 1 ? 1000L + o.val : (o.val ^ 0x55L))), "visit returns the visitor's result for the active alternative unchanged"); VF_ASSERT(view_eq(vt_view(&v), o), "visit (const) leaves the variant unchanged"); }
+void h_var_visit(void) { ARB_VT(v); ARB_LOG(lg); ARB_LOG(l0); VF_INPUT(unsigned char, which); view_t o = vt_view(&v);
+  VF_ASSERT(visit0(&l0) == 42 && l0.calls == 1, "visit(f) without variants calls f() once and returns its result");
+  if (which == 0 || which == 3) { long r = which == 0 ? vt_visit(&v, &lg) : vt_visit_rv(&v, &lg); VF_ASSERT(r == (o.idx == 0 ? 3L * o.val + 1L : (o.idx == 1 ? 1000L + o.val : (o.val ^ 0x55L))), "visit returns the visitor's result for the active alternative unchanged"); VF_ASSERT(view_eq(vt_view(&v), o), "visit (const) leaves the variant unchanged"); }
   else if (which == 1) { long r = vt_visit_with_index(&v, &lg); VF_ASSERT(r == (o.val ^ (0x100L * (long)o.idx)), "visit_with_index passes (index, value) of the active alternative and returns the result unchanged"); VF_ASSERT(view_eq(vt_view(&v), o), "visit_with_index (const) leaves the variant unchanged"); }
   else { int r = vt_visit_mut(&v, &lg); VF_ASSERT(r == 10 + (int)o.idx, "visit (mutable) returns the visitor's result");
     VF_ASSERT(VT_WF(v) && view_eq(vt_view(&v), mk(o.idx, o.idx == 0 ? 7L : (o.idx == 1 ? (long)'q' : -9L))), "visit (mutable) hands the visitor a reference to the stored alternative"); }
   VF_ASSERT(lg.calls == 1 && (unsigned)lg.which == o.idx && lg.arg == o.val, "the visitor is called exactly once, with the active alternative"); VF_REACH(); }
-
-/*@GROUP name=var_visit_cat props=C07,C02,C05 kind=F@*/
-void h_var_visit_cat(void) { ARB_VT(v); ARB_LOG(lg); ARB_LOG(l0); VF_INPUT(unsigned char, form); VF_INPUT_BOOL(probe_ref); __CPROVER_assume(form <= 3); view_t o = vt_view(&v); int r = vt_visit_cat(&v, &lg, form);
-  VF_ASSERT(r == 0 && lg.calls == 1 && lg.arg == o.val && view_eq(vt_view(&v), o), "visit calls the visitor once with the active alternative");
-  VF_ASSERT(lg.which == (int)form, "[variant.visit] the visitor receives get<m>(std::forward<V>(v)): T& / T const& / T&& / T const&& for an lvalue, const lvalue, rvalue, const rvalue variant");
-  VF_ASSERT(visit0(&l0) == 42 && l0.calls == 1, "visit(f) without variants calls f()");
-  VF_KNOWN(C07_visit_result_decays, probe_ref);
-  if (probe_ref) VF_ASSERT(vt_visit_keeps_reference(), "[variant.visit] visit returns INVOKE(...) unchanged: a visitor returning long& makes visit return long& (not a copy)");
-  VF_REACH(); }
 
 /*@GROUP name=var_visit2 props=C07,C02,C05 kind=F cost=2@*/
 void h_var_visit2(void) { ARB_VT(a); ARB_VT(b); ARB_LOG(lg); view_t oa = vt_view(&a), ob = vt_view(&b); long r = vt_visit2(&a, &b, &lg);
   int sa = oa.idx == 0 ? 4 : (oa.idx == 1 ? 1 : 8), sb = ob.idx == 0 ? 4 : (ob.idx == 1 ? 1 : 8);
   VF_ASSERT(lg.calls == 1 && lg.which == sa * 16 + sb && lg.arg == oa.val && lg.arg2 == ob.val, "visit(f, a, b): f called exactly once with the pair of active alternatives (types and values) for all nine index pairs");
   VF_ASSERT(r == (oa.val ^ ~ob.val), "visit(f, a, b) returns the result unchanged"); VF_ASSERT(view_eq(vt_view(&a), oa) && view_eq(vt_view(&b), ob), "visit leaves both variants unchanged"); VF_REACH(); }
+
+/*@GROUP name=var_visit2_index props=C07,C02,C05 kind=F cost=2@*/
+void h_var_visit2_index(void) { ARB_VT(a); ARB_VT(b); ARB_LOG(lg); view_t oa = vt_view(&a), ob = vt_view(&b); long r = vt_visit_with_index2(&a, &b, &lg);
+  VF_ASSERT(lg.calls == 1 && lg.which == (int)(oa.idx * 3 + ob.idx) && lg.arg == oa.val && lg.arg2 == ob.val, "visit_with_index(f, a, b): f called exactly once with (index, value) of both active alternatives for all nine index pairs");
+  VF_ASSERT(r == (oa.val ^ ~ob.val), "visit_with_index(f, a, b) returns the result unchanged"); VF_ASSERT(view_eq(vt_view(&a), oa) && view_eq(vt_view(&b), ob), "visit_with_index leaves both variants unchanged"); VF_REACH(); }
+
+/*@GROUP name=var_visit_mixed props=C07,C02,C05 kind=F@*/
+void h_var_visit_mixed(void) { ARB_VT(a); ARB_VM(b); ARB_LOG(lg); view_t oa = vt_view(&a), ob = vm_view(&b); long r = vt_vm_visit(&a, &b, &lg);
+  int sa = oa.idx == 0 ? 4 : (oa.idx == 1 ? 1 : 8);
+  VF_ASSERT(lg.calls == 1 && lg.which == sa * 16 + (ob.idx == 1 ? 4 : 0) && lg.arg == oa.val && lg.arg2 == ob.val, "visit over variant<int,char,long> x variant<monostate,int>: f called once with the pair of active alternatives for all six index pairs");
+  VF_ASSERT(r == (ob.idx == 1 ? (oa.val ^ ~ob.val) : oa.val), "visit over two different variant types returns the result unchanged"); VF_REACH(); }
 
 /* ======================================================================================================= variant<monostate,int> */
 /*@GROUP name=mono props=C07,C02,C05 kind=F@*/
@@ -244,6 +251,7 @@ void h_mono(void) { ARB_VM(a); ARB_VM(b); VF_INPUT(VM, t); ARB_LOG(lg); VF_INPUT
   else if (which == 6) { VM *p = vm_assign_int(&a, x); VF_ASSERT(p == &a && view_eq(vm_view(&a), mk(1, x)), "v = int"); }
   else if (which == 7) { VM *p = vm_assign_mono(&a); VF_ASSERT(p == &a && view_eq(vm_view(&a), mk(0, 0)), "v = monostate{}"); }
   else if (which == 8) { vm_emplace_mono(&a); VF_ASSERT(view_eq(vm_view(&a), mk(0, 0)), "emplace<monostate>()"); }
+  else if (which == 9) { vm_swap_free(&a, &b); VF_ASSERT(VM_WF(a) && VM_WF(b) && view_eq(vm_view(&a), ob) && view_eq(vm_view(&b), oa), "swap, all four index pairs"); }
   else { int *p = vm_emplace_int(&a, x); VF_ASSERT(p == &V_A1(a) && view_eq(vm_view(&a), mk(1, x)), "emplace<1>(int)"); }
   VF_REACH(); }
 
@@ -251,9 +259,6 @@ void h_mono(void) { ARB_VM(a); ARB_VM(b); VF_INPUT(VM, t); ARB_LOG(lg); VF_INPUT
 /*@GROUP name=exp_ctor props=C07,C02,C05 kind=F@*/
 void h_exp_ctor(void) { VF_INPUT(EX, e); VF_INPUT(unsigned char, which); VF_INPUT(int, x); VF_INPUT(short, s); VF_INPUT(char, c); view_t w;
   if (which == 0) { ex_default(&e); w = mk(0, 0); } else if (which == 1) { ex_inplace(&e, x); w = mk(0, x); } else if (which == 2) { ex_inplace_short(&e, s); w = mk(0, s); } else { ex_unexpect(&e, c); w = mk(1, c); }
-  VF_ASSERT(oi_implicit_default() && vt_implicit_default(), "optional() and variant() are implicit (copy-list-initialisation from {})");
-  VF_INPUT_BOOL(probe_explicit); VF_KNOWN(C07_expected_default_ctor_explicit, probe_explicit);
-  if (probe_explicit) VF_ASSERT(ex_implicit_default(), "[expected.object.cons] expected() is not explicit: expected<int,char> e = {} is well-formed");
   VF_ASSERT(E_WF(e) && view_eq(ex_view(&e), w), "expected(): value-initialised value; expected(in_place, x): value x; expected(unexpect, c): error c");
   VF_ASSERT(ex_has_value(&e) == (w.idx == 0), "has_value after construction"); VF_REACH(); }
 
@@ -289,13 +294,6 @@ void h_exp_monadic(void) { ARB_EX(e); VF_INPUT(EL, r); VF_INPUT(EX, q); ARB_LOG(
     VF_ASSERT(lg.calls == (hv ? 0 : 1) && (hv || lg.arg == v.val), "or_else calls f exactly once with the error iff !has_value");
     VF_ASSERT(E_WF(q) && view_eq(ex_view(&q), hv ? v : (v.val >= 0 ? mk(0, 1000L + v.val) : mk(1, (long)(char)(v.val + 1)))), "or_else propagates the value, or returns f(error()) unchanged"); }
   VF_ASSERT(view_eq(ex_view(&e), v), "monadic operations leave the object unchanged (int/char)"); VF_REACH(); }
-
-/*@GROUP name=exp_monadic_cat props=C07,C02,C05 kind=F@*/
-void h_exp_monadic_cat(void) { ARB_EX(e); ARB_LOG(lg); VF_INPUT(unsigned char, form); VF_INPUT_BOOL(orelse); __CPROVER_assume(form <= 3 && E_IDX(e) == (orelse ? 1 : 0)); view_t v = ex_view(&e);
-  VF_KNOWN(C07_expected_monadic_value_category, form == 1 || form == 2);
-  if (orelse) ex_or_else_cat(&e, &lg, form); else ex_and_then_cat(&e, &lg, form);
-  VF_ASSERT(lg.calls == 1 && lg.arg == v.val, "and_then / or_else call f exactly once with the value / error");
-  VF_ASSERT(lg.which == (int)form, "[expected.object.monadic] and_then(f) invokes f(value()) for & and const&, f(std::move(value())) for && and const&& (or_else: likewise with error()): f sees T& / T const& / T&& / T const&&"); VF_REACH(); }
 
 /*@GROUP name=unexpected props=C07,C02 kind=F@*/
 void h_unexpected(void) { VF_INPUT(UX, a); VF_INPUT(UX, b); VF_INPUT(UX, t); VF_INPUT(UI, ui); VF_INPUT(char, c); VF_INPUT(unsigned char, which); char oa = a._unex, ob = b._unex;
